@@ -261,6 +261,44 @@ theorem C16_split_update_witness :
   subst hx
   decide
 
+/-! ## server: list filters -/
+
+/-- With the good shape (`updateCapabilities` consults exactly the two unfiltered registry readers) the advertised
+    capabilities do not depend on the caller or on any list filter: whatever `view` a caller's filters give it of the
+    registry, the answer carries the capabilities of the registry itself. -/
+theorem C16_caps_independent_of_filter (s : CapSources) (hs : s.ok = true) (view : Registry → Registry) (r : Registry) :
+    capabilitiesSeen s view r = capabilities r := by
+  simp [capabilitiesSeen, hs]
+
+/-- Today's `updateCapabilities` calls `promptManager.getPrompts` and `resourceManager.getResources`, both plain
+    registry readers (no parameter, no filter), nothing else, and takes nothing caller-dependent (regenerated). -/
+theorem C16_capabilities_from_registries_fact : Mcp.Gen.capabilitySources.ok = true := by decide
+
+/-- … so on any server, for any two callers (admin, guest, header-less: any views), after any history of registrations
+    and initializes, the answer is the same and is the one of the filter-less model: prompts / resources exactly when a
+    prompt / resource with a non-empty key has been registered. -/
+theorem C16_caps_independent_of_filter_real (view view' : Registry → Registry) (pre : List SOp) :
+    let r := registryAfter {} pre
+    capabilitiesSeen Mcp.Gen.capabilitySources view r = capabilitiesSeen Mcp.Gen.capabilitySources view' r ∧
+    capabilitiesSeen Mcp.Gen.capabilitySources view r = capabilities r ∧
+    ((capabilitiesSeen Mcp.Gen.capabilitySources view r).prompts = true ↔ ∃ n, n ≠ [] ∧ SOp.reg (.prompt n) ∈ pre) ∧
+    ((capabilitiesSeen Mcp.Gen.capabilitySources view r).resources = true ↔ ∃ u, u ≠ [] ∧ SOp.reg (.resource u) ∈ pre) := by
+  have h := fun v => C16_caps_independent_of_filter _ C16_capabilities_from_registries_fact v (registryAfter {} pre)
+  have hc := C16_caps_at_time ⟨[], [], [], []⟩ pre []
+  refine ⟨by rw [h view, h view'], h view, ?_, ?_⟩
+  · rw [h view]; exact hc.2.1
+  · rw [h view]; exact hc.2.2
+
+/-- The shape the fact rejects — the capabilities decided from `listPrompts(ctx)` / `listResources(ctx)`, the registry
+    narrowed by the caller's list filter: a caller whose filter hides everything is told there are no prompts and no
+    resources although both are registered, while another caller of the same server is told there are. -/
+theorem C16_filtered_view_witness :
+    let s : CapSources := ⟨[⟨t!"promptManager", t!"listPrompts", false⟩, ⟨t!"resourceManager", t!"listResources", false⟩], 0, 1, true⟩
+    let r : Registry := { prompts := [t!"p"], resources := [t!"u"] }
+    s.ok = false ∧
+    capabilitiesSeen s (fun _ => {}) r = ⟨true, false, false⟩ ∧ capabilitiesSeen s id r = ⟨true, true, true⟩ ∧
+    capabilities r = ⟨true, true, true⟩ := by decide
+
 /-! ## client: single steps -/
 
 /-- Before a successful handshake a guarded request operation fails with not-initialized, puts nothing on the wire and
@@ -279,11 +317,35 @@ theorem C16_second_init_refused (G : Guards) (k : Kind) (sm : ClientSM) (e : Ini
     step G k sm (.init e) = (sm, .alreadyInitialized, []) := by
   cases sm; simp_all [step, stepRaw, stepInit]
 
-/-- After Close (and after RestartProcess) the client is uninitialized and reports disconnected. -/
-theorem C16_close_resets (G : Guards) (k : Kind) (sm : ClientSM) :
-    (step G k sm .close).1.initialized = false ∧ (step G k sm .close).1.state = .disconnected ∧
-    (step G k sm .close).2 = (.ok, []) := by
-  cases k <;> simp [step, stepRaw, stepClose]
+/-- After Close — error-free, or with the transport's close() reporting an error (`f`) — the client is uninitialized and
+    reports disconnected, nothing was put on the wire, and the result is the transport's (Close resets on every path:
+    `G.closeResets`). -/
+theorem C16_close_resets (G : Guards) (k : Kind) (sm : ClientSM) (f : Bool) (hc : G.closeResets = true) :
+    (step G k sm (.close f)).1.initialized = false ∧ (step G k sm (.close f)).1.state = .disconnected ∧
+    (step G k sm (.close f)).2 = (if f then .failed else .ok, []) := by
+  cases k <;> cases f <;> simp [step, stepRaw, stepCloseOp, stepClose, hc]
+
+/-- An error-free Close resets whatever the shape of Close is. -/
+theorem C16_close_ok_resets (G : Guards) (k : Kind) (sm : ClientSM) :
+    (step G k sm (.close false)).1.initialized = false ∧ (step G k sm (.close false)).1.state = .disconnected ∧
+    (step G k sm (.close false)).2 = (.ok, []) := by
+  cases k <;> simp [step, stepRaw, stepCloseOp, stepClose]
+
+/-- "Uninitialized again after Close", whatever Close returned: the next request operation fails with not-initialized
+    and touches nothing — every kind, every state before, both outcomes of the transport's close(). -/
+theorem C16_after_close_refused (G : Guards) (k : Kind) (sm : ClientSM) (f : Bool) (o : OpK) (g : Bool)
+    (hc : G.closeResets = true) (hg : G.req o = true) :
+    step G k (step G k sm (.close f)).1 (.req o g) = ((step G k sm (.close f)).1, .notInitialized, []) :=
+  C16_guard G k _ o g hg (C16_close_resets G k sm f hc).1
+
+/-- The streamable transport reopens: after any Close a handshake in a benign environment succeeds again;
+    the legacy SSE and the stdio transport close for good: it fails, without traffic, and the client stays uninitialized. -/
+theorem C16_init_after_close (G : Guards) (k : Kind) (sm : ClientSM) (f : Bool) (hc : G.closeResets = true) :
+    let o := step G k (step G k sm (.close f)).1 (.init .ok)
+    (k = .streamable → o.2.1 = .ok ∧ o.1.initialized = true ∧ o.1.state = .initialized) ∧
+    (k ≠ .streamable → o.2 = (.failed, []) ∧ o.1.initialized = false ∧ o.1.state = .disconnected) := by
+  cases k <;> cases f <;>
+    simp [step, stepRaw, stepCloseOp, stepClose, hc, stepInit, envValid, initStages, succeedInit, failInit]
 
 private theorem initStages_cases (sm : ClientSM) (pre : List Msg) (e : InitEnv) (s : Bool) :
     ((initStages sm pre e s).2.1 = .ok ∧ e = .ok ∧ (initStages sm pre e s).1.initialized = true ∧
@@ -437,7 +499,8 @@ private theorem inv_initStages (k : Kind) (sm : ClientSM) (pre : List Msg) (e : 
     Inv k (initStages sm pre e s).1 := by
   cases e <;> simp [initStages, failInit, succeedInit, Inv, hi] <;> exact hs
 
-theorem C16_inv_step (G : Guards) (k : Kind) (sm : ClientSM) (op : Op) (h : Inv k sm) : Inv k (step G k sm op).1 := by
+theorem C16_inv_step (G : Guards) (k : Kind) (sm : ClientSM) (op : Op) (hc : G.closeResets = true) (h : Inv k sm) :
+    Inv k (step G k sm op).1 := by
   have hf := stepRaw_flags G k sm op
   suffices hr : Inv k (stepRaw G k sm op).1 by
     obtain ⟨a, b, c⟩ := hr
@@ -493,19 +556,17 @@ theorem C16_inv_step (G : Guards) (k : Kind) (sm : ClientSM) (op : Op) (h : Inv 
     | sse =>
       have := stepNotify_keeps .sse sm .initNotif
       exact inv_of_keeps _ sm _ h this.1 this.2.1 this.2.2.1 this.2.2.2
-  | terminate =>
+  | terminate tf =>
     cases k with
     | stdio => exact h
     | sse => exact h
     | streamable =>
-      simp only [stepRaw]
-      split
-      · exact inv_of_keeps _ sm _ h rfl rfl rfl (fun x => x)
-      · exact h
+      cases tf <;> simp only [stepRaw] <;> split <;>
+        first | exact h | exact inv_of_keeps _ sm _ h rfl rfl rfl (fun x => x)
   | restart =>
     cases k <;> first | exact h | simp [stepRaw, stepClose, Inv]
-  | close =>
-    cases k <;> simp [stepRaw, stepClose, Inv]
+  | close f =>
+    cases k <;> cases f <;> simp [stepRaw, stepCloseOp, stepClose, Inv, hc]
 
 theorem C16_inv_init (k : Kind) : Inv k {} := by simp [Inv]
 
@@ -520,14 +581,15 @@ private theorem trace_cons (G : Guards) (k : Kind) (sm : ClientSM) (op : Op) (op
 
 /-- Reported state and flag are consistent after every history on every kind of client: `initialized` is reported
     exactly when the flag is set, `connected` is never left behind. -/
-theorem C16_state_consistent (G : Guards) (k : Kind) (ops : List Op) : Inv k (final G k {} ops) := by
+theorem C16_state_consistent (G : Guards) (k : Kind) (ops : List Op) (hc : G.closeResets = true) :
+    Inv k (final G k {} ops) := by
   suffices ∀ sm, Inv k sm → Inv k (final G k sm ops) from this {} (C16_inv_init k)
   induction ops with
   | nil => intro sm h; exact h
-  | cons op ops ih => intro sm h; rw [final_cons]; exact ih _ (C16_inv_step G k sm op h)
+  | cons op ops ih => intro sm h; rw [final_cons]; exact ih _ (C16_inv_step G k sm op hc h)
 
 /-- One step moves the reported state exactly as the specification of "what happened" says. -/
-theorem C16_state_step (G : Guards) (k : Kind) (sm : ClientSM) (op : Op) :
+theorem C16_state_step (G : Guards) (k : Kind) (sm : ClientSM) (op : Op) (hc : G.closeResets = true) :
     (step G k sm op).1.state = specState sm.state op (step G k sm op).2.1 := by
   rw [(stepRaw_flags G k sm op).2.1, (stepRaw_flags G k sm op).2.2.2.2]
   cases op with
@@ -552,25 +614,25 @@ theorem C16_state_step (G : Guards) (k : Kind) (sm : ClientSM) (op : Op) :
     · simp only [(stepNotify_keeps k sm .rootsChanged).2.1, specState]
   | sendInitialized =>
     cases k <;> simp only [stepRaw, specState, (stepNotify_keeps _ sm .initNotif).2.1]
-  | terminate =>
-    cases k <;> simp only [stepRaw, specState]
-    split <;> rfl
+  | terminate tf =>
+    cases k <;> cases tf <;> simp only [stepRaw, specState]
+    all_goals (split <;> rfl)
   | restart =>
     cases k <;> simp [stepRaw, specState, stepClose]
-  | close =>
-    cases k <;> simp [stepRaw, specState, stepClose]
+  | close f =>
+    cases k <;> cases f <;> simp [stepRaw, specState, stepCloseOp, stepClose, hc]
 
 /-- The state reported after each call of a history is the specification folded over the results so far:
     initialized exactly while the most recent of {successful Initialize, broken Initialize, Close, RestartProcess} is a
     successful Initialize. -/
-theorem C16_state_reflects_history (G : Guards) (k : Kind) (sm : ClientSM) (ops : List Op) :
+theorem C16_state_reflects_history (G : Guards) (k : Kind) (sm : ClientSM) (ops : List Op) (hc : G.closeResets = true) :
     states (trace G k sm ops) = specStates sm.state (ops.zip (results (trace G k sm ops))) := by
   induction ops generalizing sm with
   | nil => simp [trace, run, states, results, specStates]
   | cons op ops ih =>
     rw [trace_cons]
     simp only [states, results, List.map_cons, List.zip_cons_cons, specStates]
-    rw [← C16_state_step G k sm op]
+    rw [← C16_state_step G k sm op hc]
     have := ih (step G k sm op).1
     simp only [states, results] at this
     rw [this]
@@ -603,10 +665,10 @@ theorem C16_request_needs_handshake (G : Guards) (k : Kind) (sm : ClientSM) (op 
       · rcases (stepNotify_wire .streamable sm .initNotif).2 with h | h <;> rw [h] at hm <;> simp at hm
       · rcases (stepNotify_wire .sse sm .initNotif).2 with h | h <;> rw [h] at hm <;> simp at hm
       · simp at hm
-    | terminate =>
+    | terminate tf =>
       cases k <;> simp only [stepRaw] at hm <;> (repeat' split at hm) <;> simp at hm
     | restart => cases k <;> simp [stepRaw] at hm
-    | close => simp [stepRaw] at hm
+    | close f => simp only [stepRaw, stepCloseOp] at hm; split at hm <;> simp at hm
 
 /-- Without a successful Initialize somewhere in the history, the flag never rises … -/
 private theorem no_ok_stays_uninit (G : Guards) (k : Kind) (sm : ClientSM) (op : Op)
@@ -627,10 +689,10 @@ private theorem no_ok_stays_uninit (G : Guards) (k : Kind) (sm : ClientSM) (op :
     · rw [(stepNotify_keeps k sm .rootsChanged).1]; exact hi
   | sendInitialized =>
     cases k <;> simp only [stepRaw] <;> first | exact hi | (rw [(stepNotify_keeps _ sm .initNotif).1]; exact hi)
-  | terminate =>
-    cases k <;> simp only [stepRaw] <;> (try split) <;> exact hi
+  | terminate tf =>
+    cases k <;> cases tf <;> simp only [stepRaw] <;> (try split) <;> first | exact hi | (simp; exact hi)
   | restart => cases k <;> simp [stepRaw, stepClose, hi]
-  | close => cases k <;> simp [stepRaw, stepClose]
+  | close f => simp only [stepRaw, stepCloseOp]; split <;> cases k <;> simp [stepClose, hi]
 
 /-- … so a history without a successful handshake — failed ones, operations, notifications, Close in any order and
     number — puts no operation request on the wire, on any kind of client. -/
@@ -672,9 +734,9 @@ theorem C16_sends_counts_wire (G : Guards) (k : Kind) (sm : ClientSM) (ops : Lis
         · exact (stepNotify_wire k sm .rootsChanged).1
       | sendInitialized =>
         cases k <;> simp only [stepRaw] <;> first | rfl | exact (stepNotify_wire _ sm .initNotif).1
-      | terminate => cases k <;> simp only [stepRaw] <;> (repeat' split) <;> rfl
+      | terminate tf => cases k <;> simp only [stepRaw] <;> (repeat' split) <;> rfl
       | restart => cases k <;> simp [stepRaw, stepClose]
-      | close => cases k <;> simp [stepRaw, stepClose]
+      | close f => simp only [stepRaw, stepCloseOp]; split <;> cases k <;> simp [stepClose]
     omega
 
 /-! ## the regenerated facts about the client sources -/
@@ -693,7 +755,7 @@ theorem C16_ops_guarded_partial :
       (f.cls != 3 || f.guarded || f.name == t!"SendRootsListChangedNotification"))) = true := by decide
 
 /-- The six request operations of the model are guarded on both client types, as read from the source today. -/
-theorem C16_request_ops_guarded (k : Kind) (o : OpK) : (guardsOf Mcp.Gen.clientOps k).req o = true := by
+theorem C16_request_ops_guarded (k : Kind) (o : OpK) : (guardsOf Mcp.Gen.clientOps Mcp.Gen.clientLifecycleFacts k).req o = true := by
   cases k <;> cases o <;> decide
 
 /-- Initialize refuses a second call first, sets the flag once and only on the success path, every failure path
@@ -705,18 +767,57 @@ theorem C16_lifecycle_facts :
 /-- The guard theorems for the guards actually in the source: on all three kinds, a request operation on an
     uninitialized client returns not-initialized, sends nothing, changes nothing. -/
 theorem C16_guard_real (k : Kind) (sm : ClientSM) (o : OpK) (f : Bool) (hi : sm.initialized = false) :
-    step (guardsOf Mcp.Gen.clientOps k) k sm (.req o f) = (sm, .notInitialized, []) :=
+    step (guardsOf Mcp.Gen.clientOps Mcp.Gen.clientLifecycleFacts k) k sm (.req o f) = (sm, .notInitialized, []) :=
   C16_guard _ k sm o f (C16_request_ops_guarded k o) hi
 
 theorem C16_no_request_before_handshake_real (k : Kind) (ops : List Op) (hno : Op.init .ok ∉ ops) (o : OpK) :
-    Msg.req o ∉ wire (guardsOf Mcp.Gen.clientOps k) k {} ops :=
+    Msg.req o ∉ wire (guardsOf Mcp.Gen.clientOps Mcp.Gen.clientLifecycleFacts k) k {} ops :=
   C16_no_request_before_handshake _ k ops (C16_request_ops_guarded k) hno o
 
 /-- Witness for the missing guard: with `roots := false` a fresh streamable client that never shook hands puts the
     roots notification on the wire and reports success. -/
 theorem C16_unguarded_roots_witness :
-    step ⟨fun _ => true, false⟩ .streamable {} .rootsChanged =
+    step ⟨fun _ => true, false, true⟩ .streamable {} .rootsChanged =
       ({ sends := 1 }, .ok, [.rootsChanged]) := by decide
+
+/-- Close as read from the source today resets flag and state on every path after the transport's close(), on both
+    client types (so on all three kinds of client). -/
+theorem C16_close_resets_fact (k : Kind) :
+    (guardsOf Mcp.Gen.clientOps Mcp.Gen.clientLifecycleFacts k).closeResets = true := by
+  cases k <;> decide
+
+/-- Hence for the real clients: after Close, whether or not the transport's close() failed (child already dead and
+    reaped, failed kill), the client is uninitialized and disconnected, every request operation is refused with
+    not-initialized without traffic, the streamable client can shake hands again, the reported state follows the
+    specification over every history with faulted Closes in it, and flag and state stay consistent. -/
+theorem C16_close_real (k : Kind) (sm : ClientSM) (f : Bool) (o : OpK) (g : Bool) :
+    let G := guardsOf Mcp.Gen.clientOps Mcp.Gen.clientLifecycleFacts k
+    (step G k sm (.close f)).1.initialized = false ∧ (step G k sm (.close f)).1.state = .disconnected ∧
+    (step G k sm (.close f)).2.2 = [] ∧
+    step G k (step G k sm (.close f)).1 (.req o g) = ((step G k sm (.close f)).1, .notInitialized, []) ∧
+    (k = .streamable → (step G k (step G k sm (.close f)).1 (.init .ok)).2.1 = .ok) := by
+  intro G
+  have hc := C16_close_resets_fact k
+  have h := C16_close_resets G k sm f hc
+  refine ⟨h.1, h.2.1, by rw [h.2.2], C16_after_close_refused G k sm f o g hc (C16_request_ops_guarded k o), ?_⟩
+  intro hk
+  exact ((C16_init_after_close G k sm f hc).1 hk).1
+
+theorem C16_state_reflects_history_real (k : Kind) (ops : List Op) :
+    let G := guardsOf Mcp.Gen.clientOps Mcp.Gen.clientLifecycleFacts k
+    states (trace G k {} ops) = specStates .disconnected (ops.zip (results (trace G k {} ops))) ∧ Inv k (final G k {} ops) :=
+  ⟨C16_state_reflects_history _ k {} ops (C16_close_resets_fact k), C16_state_consistent _ k ops (C16_close_resets_fact k)⟩
+
+/-- The bad region (seeded change C16-7): a Close that returns the transport error before the reset. A stdio client whose
+    child died is still `initialized` after Close, and the next operation is answered by the closed transport (`failed`)
+    instead of not-initialized; the specification of the reported state is violated. -/
+theorem C16_close_fault_witness :
+    trace ⟨fun _ => true, true, false⟩ .stdio {} [.init .ok, .close true, .req .listTools false] =
+      [(.ok, .initialized, [.initReq, .initNotif]), (.failed, .initialized, []), (.failed, .initialized, [])] ∧
+    trace Guards.all .stdio {} [.init .ok, .close true, .req .listTools false] =
+      [(.ok, .initialized, [.initReq, .initNotif]), (.failed, .disconnected, []), (.notInitialized, .disconnected, [])] ∧
+    lookupCloseResets [(t!"Client", true, true, true, true), (t!"StdioClient", true, true, true, false)] t!"StdioClient" = false := by
+  decide
 
 /-- … and with the guard in place it does not, on any kind, in any uninitialized state. -/
 theorem C16_guarded_roots (k : Kind) (sm : ClientSM) (hi : sm.initialized = false) :
@@ -728,7 +829,7 @@ theorem C16_guarded_roots (k : Kind) (sm : ClientSM) (hi : sm.initialized = fals
 /-- operation before handshake, failed handshake, operation again, handshake, second handshake, operation, Close,
     operation, handshake after Close (streamable: works again). -/
 example : trace Guards.all .streamable {}
-      [.req .listTools false, .init .rpcErr, .req .callTool false, .init .ok, .init .ok, .req .callTool true, .close,
+      [.req .listTools false, .init .rpcErr, .req .callTool false, .init .ok, .init .ok, .req .callTool true, .close false,
        .req .readResource false, .init .ok] =
     [(.notInitialized, .disconnected, []), (.failed, .disconnected, [.initReq]), (.notInitialized, .disconnected, []),
      (.ok, .initialized, [.initReq, .initNotif]), (.alreadyInitialized, .initialized, []),
@@ -736,9 +837,20 @@ example : trace Guards.all .streamable {}
      (.ok, .initialized, [.initReq, .initNotif])] := by decide
 
 /-- legacy SSE: the stream opened by a failed handshake is reused; after Close the transport stays closed. -/
-example : trace Guards.all .sse {} [.init .netErr, .init .http500, .init .ok, .req .getPrompt false, .close, .init .ok] =
+example : trace Guards.all .sse {} [.init .netErr, .init .http500, .init .ok, .req .getPrompt false, .close false, .init .ok] =
     [(.failed, .disconnected, [.get]), (.failed, .disconnected, [.get, .initReq]), (.ok, .initialized, [.initReq, .initNotif]),
      (.ok, .initialized, [.req .getPrompt]), (.ok, .disconnected, []), (.failed, .disconnected, [])] := by decide
+
+/-- Close meeting a transport error on each kind (the streamable transport reopens, the others do not). -/
+example : trace Guards.all .streamable {} [.init .ok, .close true, .req .getPrompt false, .init .ok, .close false, .close true] =
+    [(.ok, .initialized, [.initReq, .initNotif]), (.failed, .disconnected, []), (.notInitialized, .disconnected, []),
+     (.ok, .initialized, [.initReq, .initNotif]), (.ok, .disconnected, []), (.failed, .disconnected, [])] := by decide
+
+/-- A DELETE that fails keeps the session (it can be terminated later); Close after it resets as always. -/
+example : trace Guards.all .streamable {}
+      [.init .ok, .terminate true, .terminate false, .terminate false, .close true, .req .listTools false] =
+    [(.ok, .initialized, [.initReq, .initNotif]), (.failed, .initialized, [.delete]), (.ok, .initialized, [.delete]),
+     (.failed, .initialized, []), (.failed, .disconnected, []), (.notInitialized, .disconnected, [])] := by decide
 
 example : trace Guards.all .stdio {} [.req .listPrompts false, .init .badResult, .init .ok, .restart, .req .listTools false] =
     [(.notInitialized, .disconnected, []), (.failed, .disconnected, [.initReq]), (.ok, .initialized, [.initReq, .initNotif]),
